@@ -102,6 +102,19 @@ class Link(base.BaseObject):
         self._vertices.append(new)
         if (new is not None) and (self not in new.links):
             new.add_to_link(self)
+        self._invalidate_ends()
+
+    def _invalidate_ends(self):
+        """
+        Invalidate the neighbor cache of every vertex on this link.
+
+        Changing any end of a link changes the neighbors of *all* vertices it
+        connects, not only of the vertex being added or removed.
+        """
+        for vert in self._vertices:
+            if vert is not None:
+                # pylint: disable-next=protected-access
+                vert._qa_neighbors_invalidate()
 
     def unlink_from(self, kill: Vertex):
         """
@@ -118,3 +131,4 @@ class Link(base.BaseObject):
 
             if kill is not None:
                 kill.remove_from_link(self)
+            self._invalidate_ends()
